@@ -1,9 +1,11 @@
 """run the pinned test suite on /repo and compare with BASELINE.json stable_pass"""
 import json, subprocess, sys, xml.etree.ElementTree as ET, time
 out = sys.argv[1] if len(sys.argv) > 1 else "/tmp/baseline.junit.xml"
+import os
+REPO = os.environ.get("QIBO_REPO", "/repo")
 t = time.time()
-subprocess.run(f"cd /repo && /venv/bin/python -m pytest -ra -q -p no:cacheprovider --timeout=900 --continue-on-collection-errors -n 12 --junitxml={out} > {out}.log 2>&1" if "--par" in sys.argv else
-               f"cd /repo && /venv/bin/python -m pytest -ra -q -p no:cacheprovider --timeout=900 --continue-on-collection-errors --junitxml={out} > {out}.log 2>&1", shell=True)
+subprocess.run(f"cd {REPO} && PYTHONPATH={REPO}/src /venv/bin/python -m pytest -ra -q -p no:cacheprovider --timeout=900 --continue-on-collection-errors -n 12 --junitxml={out} > {out}.log 2>&1" if "--par" in sys.argv else
+               f"cd {REPO} && PYTHONPATH={REPO}/src /venv/bin/python -m pytest -ra -q -p no:cacheprovider --timeout=900 --continue-on-collection-errors --junitxml={out} > {out}.log 2>&1", shell=True)
 base = json.load(open("/root/.vp/BASELINE.json"))
 stable = set(base["stable_pass"])
 passed = set()
